@@ -6,6 +6,7 @@ package rig
 
 import (
 	"context"
+	"sync"
 	"crypto/sha256"
 	"encoding/binary"
 	"encoding/base64"
@@ -179,6 +180,9 @@ type Rig struct {
 	// Ops are harness operations callable through InjectOp.
 	Ops map[string]func(ctx sdk.Context, args json.RawMessage) error
 
+	// CommitMu excludes concurrent readers (race-stress query storm) during Commit only, as a node's ABCI connections do.
+	CommitMu sync.RWMutex
+
 	cur        *BlockRecord
 	txIdx      int
 	pendingTag []any
@@ -347,6 +351,13 @@ func New(opts Options) *Rig {
 	if opts.NoInit {
 		return r
 	}
+	r.InitDefault()
+	return r
+}
+
+// InitDefault builds the default genesis (validator, accounts, mutator), runs InitChain and commits the first block.
+func (r *Rig) InitDefault() {
+	opts := r.Opts
 	gs := r.buildGenesis()
 	stateBytes, err := json.Marshal(gs)
 	if err != nil {
@@ -357,7 +368,6 @@ func New(opts Options) *Rig {
 	if br := r.DeliverBlock(time.Second, nil); br.FinalErr != nil {
 		panic(fmt.Errorf("first block: %w", br.FinalErr))
 	}
-	return r
 }
 
 func (r *Rig) buildGenesis() map[string]json.RawMessage {
@@ -678,8 +688,12 @@ func (r *Rig) DeliverBlock(dt time.Duration, txs []Tx) *BlockRecord {
 	if dt <= 0 {
 		dt = time.Second
 	}
+	return r.DeliverBlockAt(r.Time.Add(dt), txs)
+}
+
+// DeliverBlockAt runs block height+1 at the given block time (used by replicas replaying a journal).
+func (r *Rig) DeliverBlockAt(t time.Time, txs []Tx) *BlockRecord {
 	h := r.Height + 1
-	t := r.Time.Add(dt)
 	br := &BlockRecord{Height: h, Time: t, PrevHash: append([]byte{}, r.LastHash...)}
 	raw := make([][]byte, len(txs))
 	for i, tx := range txs {
@@ -728,7 +742,10 @@ func (r *Rig) DeliverBlock(dt time.Duration, txs []Tx) *BlockRecord {
 	}
 	r.cur = nil
 	if err == nil {
-		if _, cerr := r.App.Commit(); cerr != nil {
+		r.CommitMu.Lock()
+		_, cerr := r.App.Commit()
+		r.CommitMu.Unlock()
+		if cerr != nil {
 			br.FinalErr = cerr
 		} else {
 			r.Height = h
@@ -738,7 +755,20 @@ func (r *Rig) DeliverBlock(dt time.Duration, txs []Tx) *BlockRecord {
 	if r.Journal != nil {
 		r.Journal.BlockDone(br)
 	}
+	r.SyncSeqs()
 	return br
+}
+
+// SyncSeqs re-reads the sequence numbers of the rig accounts from committed state, so that a tx
+// rejected by the ante handler (whose sequence was therefore not consumed) does not desynchronise the signer.
+func (r *Rig) SyncSeqs() {
+	ctx := r.Ctx()
+	for _, a := range r.Accounts {
+		if acc := r.App.AccountKeeper.GetAccount(ctx, a.Addr); acc != nil {
+			a.Seq = acc.GetSequence()
+			a.AccNum = acc.GetAccountNumber()
+		}
+	}
 }
 
 func (r *Rig) finalize(h int64, t time.Time, raw [][]byte) (res *abci.ResponseFinalizeBlock, err error) {
